@@ -81,7 +81,7 @@ func countKind(cs *connState, k string) int {
 
 // smallLimit draws a message-size limit. The default (0 => 16 MiB) makes every
 // connection allocate and clear a 16 MiB read buffer (about a millisecond), so
-// it is used for a small share of the runs only.
+// it is used for well under 1 % of the runs only.
 // units scales the history length with the tier.
 func units(tier string, n int) int {
 	if tier == "thorough" {
@@ -91,7 +91,7 @@ func units(tier string, n int) int {
 }
 
 func smallLimit(r *Rand) int {
-	if r.Chance(1, 50) {
+	if r.Chance(1, 150) {
 		return r.PickInt(0, -1)
 	}
 	return r.PickInt(64, 256, 1000, 4096, 5000, 65536)
